@@ -88,6 +88,27 @@ class _FieldOfDressed:
         else:
             self.content = None
             setattr(container._xobject, self.name, value)
+            ftype = getattr(container._XoStruct, self.name).ftype
+            if isinstance(ftype, Ref) or hasattr(ftype, "_DressingClass"):
+                _forget_stale_dressed(container)
+
+
+def _forget_stale_dressed(obj):
+    """After a reference or nested field was set from plain data: forget
+    the dressed objects that no longer are what the buffer holds."""
+    for ff in obj._XoStruct._fields:
+        dressed = obj.__dict__.get("_dressed_" + ff.name)
+        if dressed is None:
+            continue
+        current = getattr(obj._xobject, ff.name)
+        if (
+            current is None
+            or current._buffer is not dressed._xobject._buffer
+            or current._offset != dressed._xobject._offset
+        ):
+            del obj.__dict__["_dressed_" + ff.name]
+        else:
+            _forget_stale_dressed(dressed)
 
 
 class JEncoder(json.JSONEncoder):
